@@ -43,9 +43,9 @@ def stepChg (prev : Cache) (s : St) : Chg → Option St
     match get prev src.hash with
     | some v => if toOk then some { s1 with out := put s1.out src.hash v } else none
     | none =>
-      -- the error variable is overwritten by the second getBlob
+      -- an error of either side makes Consume fail (fix D18: the "to" error is no longer overwritten)
       match getBlob src with
-      | some _ => some { s1 with out := put s1.out src.hash .blob }
+      | some _ => if toOk then some { s1 with out := put s1.out src.hash .blob } else none
       | none => none
 
 def consume (prev : Cache) (chs : List Chg) : Option St := chs.foldlM (stepChg prev) ⟨[], []⟩
